@@ -248,10 +248,15 @@ def run_slice(job: dict) -> dict:
         a = Analysis(scn, tr)
         res["evaluations"] += 1
         C["random_cases"] += 1
-        if tr["outcome"]["kind"] == "error" and tr["outcome"].get("type") == "AssertionError" \
-                and "incomparable" in tr["outcome"].get("msg", ""):
-            C["random_skipped_incomparable"] += 1      # C05's known finding, not this property
-            continue
+        if tr["outcome"]["kind"] == "error" and a.viol["C05"]:
+            # failures that are C05's open known findings (classified with C05's own annotation and predicates)
+            # are not this property's subject
+            from . import c05
+            from .. import findings
+            c05.post(scn, tr, a)
+            if all(findings.match("C05", v5) is not None for v5 in a.viol["C05"]):
+                C["random_skipped_known_c05_finding"] += 1
+                continue
         for vv in judge(scn, tr, a, M):
             viol(dict(vv, cls="generated"), scn, sched, tr)
         if tr["outcome"]["kind"] != "ok":
@@ -268,6 +273,12 @@ def replay(rep: dict) -> List[dict]:
     r = rep["replay"]
     tr = run_case(r["scn"], dict(r["sched"]))
     a = Analysis(r["scn"], tr)
+    if rep["violation"].get("cls") == "generated" and tr["outcome"]["kind"] == "error" and a.viol["C05"]:
+        from . import c05
+        from .. import findings
+        c05.post(r["scn"], tr, a)
+        if all(findings.match("C05", v5) is not None for v5 in a.viol["C05"]):
+            return []
     out = judge(r["scn"], tr, a, r["M"])
     v = rep["violation"]
     if not out and v.get("kind", "").startswith(("wrong_number", "non_settling", "settling_loop", "loop_exceeding")):
